@@ -4,6 +4,8 @@ CONSTANTS
   S = 3
   Ws = {0}
   WriterTyped = {FALSE}
+  Namings = {"plain"}
+  RetireRule = "equal"
   Reversed = {FALSE}
   FnStep = 2
   Isolated = FALSE
